@@ -158,7 +158,8 @@ def run(prog):
     if fn is not None:
         r = strip(fn.terms.ret)
         errs = []
-        idxs = [strip(x) for x in mir.subterms(r) if mir.is_call(strip(x), "index") and len(strip(x)[2]) == 2]
+        idxs = [strip(x) for x in mir.subterms(r) if (mir.is_call(strip(x), "index") or mir.is_call(strip(x), "get")) and len(strip(x)[2]) == 2]
+        idxs = [x for i, x in enumerate(idxs) if x not in idxs[:i]]
         if len(idxs) != 1:
             errs.append("?var_weight is not one table lookup")
         else:
